@@ -29,64 +29,53 @@ impl Ipv6Address {
         )
     }
 
-    /// Create an IPv6 address from a string that uses zero compression
+    /// Create an IPv6 address from its RFC 4291 text form: eight groups of up
+    /// to four hex digits, where one '::' may stand for one or more groups of
+    /// zeros anywhere in the address (also at the beginning or at the end)
     pub fn from_str(s: &str) -> Result<Self, &'static str> {
-        // Split the string by colons to get each segment
-        let segments: Vec<&str> = s.split(':').collect();
+        const ERR: &str = "Invalid IPv6 address format";
 
-        // Ensure we have at most 8 segments for a valid IPv6 address
-        if segments.len() > 8 {
-            return Err("Invalid IPv6 address format");
+        // Split around the (only) zero compression, if there is one
+        let (head, tail, compressed) = match s.find("::") {
+            Some(pos) => {
+                let tail = &s[pos + 2..];
+                if tail.contains("::") {
+                    return Err(ERR);
+                }
+                (&s[..pos], tail, true)
+            }
+            None => (s, "", false),
+        };
+
+        // Convert the colon separated groups on one side of the compression
+        fn groups(part: &str) -> Result<Vec<u16>, &'static str> {
+            if part.is_empty() {
+                return Ok(Vec::new());
+            }
+            part.split(':')
+                .map(|group| {
+                    if group.is_empty()
+                        || group.len() > 4
+                        || !group.chars().all(|c| c.is_ascii_hexdigit())
+                    {
+                        return Err("Invalid segment in IPv6 address");
+                    }
+                    u16::from_str_radix(group, 16).map_err(|_| "Invalid segment in IPv6 address")
+                })
+                .collect()
+        }
+        let head = groups(head)?;
+        let tail = groups(tail)?;
+
+        // '::' replaces at least one group; without it all eight must be there
+        let given = head.len() + tail.len();
+        if (compressed && given > 7) || (!compressed && given != 8) {
+            return Err(ERR);
         }
 
         let mut parts = [0u16; 8];
-        let mut part_index = 0; // Index to fill in the parts array
-
-        // Flags to handle zero compression
-        let mut compressed = false;
-        let mut compression_index = 0; // Index where compression starts
-
-        for (i, &segment) in segments.iter().enumerate() {
-            if segment.is_empty() {
-                if compressed {
-                    return Err("Invalid IPv6 address format");
-                }
-                compressed = true;
-                compression_index = i;
-                continue;
-            }
-
-            if part_index >= 8 {
-                return Err("Invalid IPv6 address format");
-            }
-
-            // Convert segment to u16 value
-            match u16::from_str_radix(segment, 16) {
-                Ok(value) => parts[part_index] = value,
-                Err(_) => return Err("Invalid segment in IPv6 address"),
-            }
-
-            part_index += 1;
-        }
-
-        // Handle zero compression
-        if compressed {
-            // Calculate the number of segments we need to shift
-            let shift = 8 - part_index;
-
-            // Shift parts to make room for the compressed segments
-            for i in (compression_index + shift..8).rev() {
-                parts[i] = parts[i - shift];
-            }
-
-            // Fill in the compressed segments with zeros
-            for part in parts.iter_mut().skip(compression_index).take(shift) {
-                *part = 0;
-            }
-        } else if part_index != 8 {
-            // If no compression, ensure we have exactly 8 parts
-            return Err("Invalid IPv6 address format");
-        }
+        parts[..head.len()].copy_from_slice(&head);
+        parts[8 - tail.len()..].copy_from_slice(&tail);
 
         Ok(Self(
             parts[0], parts[1], parts[2], parts[3], parts[4], parts[5], parts[6], parts[7],
